@@ -66,7 +66,7 @@ struct HashWorld : World {
     }
     std::vector<std::string> assumptions(const std::string &) const override
     {
-        return { "binary keys in case-insensitive tables never differ only in ASCII case (no map semantics is defined for that corner: hashing is on raw bytes, comparison is folded)",
+        return { "equality of keys in a case-insensitive table is equality after folding ASCII case, for binary keys as for strings (what the table's comparison function does)",
                  "string and binary entry points are not mixed on one table (they hash the same bytes differently by design)" };
     }
 
@@ -84,13 +84,17 @@ struct HashWorld : World {
         cfg.set("nocase", nocase);
         cfg.set("bin", bin);
         cfg.set("int32", i32);
+        // binary keys that differ only in ASCII case, in a case-insensitive table: equal keys (the comparison folds case),
+        // so they must also hash alike (they did not: repaired, see known_findings.json)
+        bool case_pairs = bin && nocase && r.chance(0.25);
+        cfg.set("case_pairs", case_pairs);
         // ---- key pool
         std::vector<std::string> pool;
         auto add = [&](const std::string &k) {
             if (!bin && k.find('\0') != std::string::npos)
                 return;
             std::string f = fold(k, nocase);
-            if (bin && nocase) // see assumptions: no lowercase ASCII in folded binary tables
+            if (bin && nocase && !case_pairs) // see assumptions: no lowercase ASCII in folded binary tables
                 for (char c : k)
                     if (c >= 'a' && c <= 'z')
                         return;
@@ -128,8 +132,15 @@ struct HashWorld : World {
                 add(base + std::string(2, '\0'));
             }
         }
-        if (r.chance(0.6) && !bin) { // case variants
+        if ((r.chance(0.6) && !bin) || case_pairs) { // case variants
             std::string base = rnd_key(2, 6);
+            if (case_pairs) { // (random bytes are rarely letters)
+                base.clear();
+                for (int i = (int)r.range(1, 4); i > 0; --i)
+                    base += (char)((r.chance(0.5) ? 'a' : 'A') + (int)r.below(26));
+                if (r.chance(0.3))
+                    base += '\0';
+            }
             std::string up = base, lo = base;
             for (auto &c : up)
                 if (c >= 'a' && c <= 'z')
@@ -140,6 +151,47 @@ struct HashWorld : World {
             add(base);
             add(up);
             add(lo);
+        }
+        if (case_pairs) {
+            // a pair differing only in case that lands in ONE bucket (the table hashes the raw bytes, so this takes a
+            // search): candidates in one scratch table, their twins (some letters in the other case) in another of the
+            // same geometry, buckets read off the public arrays
+            std::vector<std::string> orig, twin;
+            for (int i = 0; i < 900; ++i) {
+                std::string k;
+                for (int q = (int)r.range(3, 8); q > 0; --q)
+                    k += (char)((r.chance(0.5) ? 'a' : 'A') + (int)r.below(26));
+                std::string t = k;
+                bool changed = false;
+                for (auto &c : t)
+                    if (r.chance(0.5)) {
+                        c = (char)(c ^ 0x20);
+                        changed = true;
+                    }
+                if (!changed)
+                    t[0] = (char)(t[0] ^ 0x20);
+                orig.push_back(k);
+                twin.push_back(t);
+            }
+            auto buckets = [&](const std::vector<std::string> &keys) {
+                std::map<std::string, int> m;
+                hash_table_t *sh = hash_table_new(size, HASH_CASE_YES);
+                for (auto &x : keys) // (the table keeps the caller's key pointers: `keys` outlives it)
+                    hash_table_enter_bkey(sh, x.data(), x.size(), (void *)1);
+                for (int bq = 0; bq < sh->size; ++bq)
+                    for (hash_entry_t *e = &sh->table[bq]; e && e->key; e = e->next)
+                        m[std::string(e->key, e->len)] = bq;
+                hash_table_free(sh);
+                return m;
+            };
+            std::map<std::string, int> bo = buckets(orig), bt = buckets(twin);
+            int added = 0;
+            for (size_t i = 0; i < orig.size() && added < 2; ++i)
+                if (bo.count(orig[i]) && bt.count(twin[i]) && bo[orig[i]] == bt[twin[i]]) {
+                    add(orig[i]);
+                    add(twin[i]);
+                    ++added;
+                }
         }
         if (r.chance(0.15))
             add(rnd_key(1000, 1000));
@@ -155,7 +207,7 @@ struct HashWorld : World {
                     std::string k = rnd_key(1, 5);
                     if (!bin && k.find('\0') != std::string::npos)
                         continue;
-                    if (bin && nocase) {
+                    if (bin && nocase && !case_pairs) {
                         bool lower = false;
                         for (char c : k)
                             if (c >= 'a' && c <= 'z')
@@ -241,6 +293,7 @@ struct HashWorld : World {
         const Json &cfg = plan["cfg"];
         int size = (int)cfg.geti("size", 10);
         bool nocase = cfg.getb("nocase"), bin = cfg.getb("bin"), i32 = cfg.getb("int32");
+        const bool case_pairs = cfg.getb("case_pairs") && bin && nocase;
         std::vector<std::string> pool;
         for (auto &k : cfg["pool"].a)
             pool.push_back(k.s);
@@ -261,7 +314,10 @@ struct HashWorld : World {
             }
             return c;
         };
-        auto bad = [&](int opi, const char *inv, const std::string &msg) { out.violate(std::string("C20.") + inv, "mismatch", inv, msg, opi); };
+        auto release = [&](void *p) { free(p); };
+        auto bad = [&](int opi, const char *inv, const std::string &msg) {
+            out.violate(std::string("C20.") + inv, "mismatch", case_pairs ? std::string(inv) + ":binary_case_pair" : std::string(inv), msg, opi);
+        };
         // locate the live entry of a model key in the public table: (bucket, position in chain, chain length)
         auto locate = [&](const char *copy, int &pos, int &len) {
             for (int b = 0; b < h->size; ++b) {
@@ -339,10 +395,10 @@ struct HashWorld : World {
                         bad(opi, rep ? "replace_existing" : "enter_existing",
                             "returned " + std::to_string(ret) + ", expected the stored value " + std::to_string(it->second.val));
                     if (rep) {
-                        free(it->second.copy); // the table now holds c; a stale pointer would be an ASan error
+                        release(it->second.copy); // the table now holds c; a stale pointer would be an ASan error
                         it->second = Live { c, v, raw };
                     } else
-                        free(c);
+                        release(c);
                 }
                 out.trace.i64(it == model.end() ? 0 : 1);
             } else if (o == "delete") {
@@ -356,7 +412,7 @@ struct HashWorld : World {
                 }
                 char *c = mk(raw);
                 int64_t ret = (int64_t)(size_t)(bin ? hash_table_delete_bkey(h, c, raw.size()) : hash_table_delete(h, c));
-                free(c);
+                release(c);
                 out.events.i64(ret);
                 out.checks++;
                 if (it == model.end()) {
@@ -365,7 +421,7 @@ struct HashWorld : World {
                 } else {
                     if (ret != it->second.val)
                         bad(opi, "delete_existing", "delete returned " + std::to_string(ret) + ", expected " + std::to_string(it->second.val));
-                    free(it->second.copy);
+                    release(it->second.copy);
                     model.erase(it);
                 }
                 out.trace.i64(it == model.end() ? 0 : 1);
@@ -382,7 +438,7 @@ struct HashWorld : World {
                     rv = bin ? hash_table_lookup_bkey(h, c, raw.size(), &vp) : hash_table_lookup(h, c, &vp);
                     got = (int64_t)(size_t)vp;
                 }
-                free(c);
+                release(c);
                 out.events.i64(rv);
                 out.checks++;
                 if (chain_delete)
@@ -400,7 +456,7 @@ struct HashWorld : World {
             } else if (o == "empty") {
                 hash_table_empty(h);
                 for (auto &kv : model)
-                    free(kv.second.copy);
+                    release(kv.second.copy);
                 model.clear();
             } else if (o == "iter") {
                 std::vector<hash_entry_t *> ents;
@@ -432,7 +488,7 @@ struct HashWorld : World {
             } else if (o == "renew") {
                 hash_table_free(h);
                 for (auto &kv : model)
-                    free(kv.second.copy);
+                    release(kv.second.copy);
                 model.clear();
                 h = hash_table_new(size, nocase ? HASH_CASE_NO : HASH_CASE_YES);
             }
@@ -444,7 +500,7 @@ struct HashWorld : World {
         ctx.at((int)ops.size());
         hash_table_free(h);
         for (auto &kv : model)
-            free(kv.second.copy);
+            release(kv.second.copy);
         out.nontrivial = chain_delete && lookup_after;
     }
 
